@@ -1,16 +1,15 @@
 (* Check_C14.v — evaluation of the Sig / Did / Crypto models on the cases the
    harness ran through the implementation (correspondence check for C14).
-   The third-party oracles (base58, x509, the signature schemes) are
-   instantiated by finite tables observed by the harness. *)
-From Ucanto Require Import Base Varint VarintMore Sig Did Crypto.
+   The base encodings are the concrete functions of BaseEnc.v / BaseDec.v; what the
+   Go libraries answered on the same strings is the EXPECTED result of those
+   functions (check_base).  The remaining third-party oracles (x509, the signature
+   schemes) are instantiated by finite tables observed by the harness. *)
+From Ucanto Require Import Base Varint VarintMore Sig BaseEnc BaseDec Did Crypto.
 Open Scope N_scope.
 
-(* oracle tables *)
+(* oracle tables (x509) *)
 Definition tab_dec (t : list (bstr * option bstr)) (s : bstr) : option bstr :=
   match slookup s t with Some r => r | None => None end.
-(* a miss yields a byte that is no base58 digit, so it can never agree by accident *)
-Definition tab_enc (t : list (bstr * bstr)) (b : bstr) : bstr :=
-  match slookup b t with Some r => r | None => [0] end.
 Definition tab_bool (t : list (bstr * bool)) (b : bstr) : bool :=
   match slookup b t with Some r => r | None => false end.
 
@@ -46,24 +45,23 @@ Definition did_class (o : option did) : N :=
 
 (* what is compared for an accepted DID: Bytes(), String(), and the model's
    own claim that it round-trips (did_wf) *)
-Definition did_obs_ok (et : list (bstr * bstr)) (d : did) (obytes : bstr) (ostr : option bstr) : bool :=
-  beq (did_bytes d) obytes && out_eqb beq (did_to_string (tab_enc et) d) ostr && did_wf d.
+Definition did_obs_ok (d : did) (obytes : bstr) (ostr : option bstr) : bool :=
+  beq (did_bytes d) obytes && out_eqb beq (did_to_string b58enc d) ostr && did_wf d.
 
-(* (string, b58 decode table, b58 encode table, class, Bytes(), String()) *)
-Definition check_did_parse
-  (c : bstr * list (bstr * option bstr) * list (bstr * bstr) * N * bstr * option bstr) : bool :=
-  match c with (s, dt, et, cls, obytes, ostr) =>
-    let r := did_parse (tab_dec dt) s in
+(* (string, class, Bytes(), String()) *)
+Definition check_did_parse (c : bstr * N * bstr * option bstr) : bool :=
+  match c with (s, cls, obytes, ostr) =>
+    let r := did_parse b58dec s in
     (did_class r =? cls) &&
-    match r with None => true | Some d => did_obs_ok et d obytes ostr end
+    match r with None => true | Some d => did_obs_ok d obytes ostr end
   end.
 
-(* (bytes, b58 encode table, class, Bytes(), String()) *)
-Definition check_did_decode (c : bstr * list (bstr * bstr) * N * bstr * option bstr) : bool :=
-  match c with (b, et, cls, obytes, ostr) =>
+(* (bytes, class, Bytes(), String()) *)
+Definition check_did_decode (c : bstr * N * bstr * option bstr) : bool :=
+  match c with (b, cls, obytes, ostr) =>
     let r := did_decode b in
     (did_class r =? cls) &&
-    match r with None => true | Some d => did_obs_ok et d obytes ostr end
+    match r with None => true | Some d => did_obs_ok d obytes ostr end
   end.
 
 Definition check_did_parses a : list N := bad_ids check_did_parse a 0.
@@ -84,11 +82,11 @@ Definition check_vdecode (c : N * bstr * list (bstr * bool) * option (bstr * bst
     end
   end.
 
-(* verifier.Parse: (alg, string, b58 table, x509 public table, observed) *)
+(* verifier.Parse: (alg, string, x509 public table, observed) *)
 Definition check_vparse
-  (c : N * bstr * list (bstr * option bstr) * list (bstr * bool) * option (bstr * bstr)) : bool :=
-  match c with (a, s, dt, pt, obs) =>
-    match verifier_parse (tab_dec dt) (tab_bool pt) (alg_of a) s, obs with
+  (c : N * bstr * list (bstr * bool) * option (bstr * bstr)) : bool :=
+  match c with (a, s, pt, obs) =>
+    match verifier_parse b58dec (tab_bool pt) (alg_of a) s, obs with
     | None, None => true
     | Some v, Some (oenc, odid) =>
       beq (verifier_encode v) oenc && beq (did_bytes (v_did v)) odid && dkey (v_did v)
@@ -110,6 +108,28 @@ Definition check_sdecode
     end
   end.
 
+(* signer.Parse: (alg, string, x509 public table, x509 private table, observed as for
+   signer.Decode).  The string goes through multibase.Decode: only strings whose
+   prefix mb_decode models are given (mb_modelled); any other is reported. *)
+Definition check_sparse
+  (c : N * bstr * list (bstr * bool) * list (bstr * option bstr) * option (bstr * bstr * bstr)) : bool :=
+  match c with (a, str, pt, qt, obs) =>
+    mb_modelled str &&
+    match signer_parse mb_decode (tab_bool pt) (tab_dec qt) (alg_of a) str, obs with
+    | None, None => true
+    | Some s, Some (oenc, ovenc, odid) =>
+      beq (signer_encode s) oenc && beq (verifier_encode (signer_verifier s)) ovenc &&
+      beq (did_bytes (signer_did s)) odid && dkey (signer_did s)
+    | _, _ => false
+    end
+  end.
+
+(* signer.Format: (Encode(), Format()) *)
+Definition check_sformat (c : bstr * bstr) : bool :=
+  match c with (b, str) => beq (mb64enc b) str end.
+
+Definition check_sparses a : list N := bad_ids check_sparse a 0.
+Definition check_sformats a : list N := bad_ids check_sformat a 0.
 Definition check_vdecodes a : list N := bad_ids check_vdecode a 0.
 Definition check_vparses a : list N := bad_ids check_vparse a 0.
 Definition check_sdecodes a : list N := bad_ids check_sdecode a 0.
@@ -161,13 +181,13 @@ Definition check_sign (sigs : sigtab) (keys : keytab) (c : N * N * bstr) : bool 
   end.
 Definition check_signs sigs keys a : list N := bad_ids (check_sign sigs keys) a 0.
 
-(* Wrap: (key index, wrapping DID bytes, b58 encode table,
+(* Wrap: (key index, wrapping DID bytes,
    observed: None = refused | Some (DID().Bytes(), Encode())) *)
-Definition check_wrap (keys : keytab) (c : N * bstr * list (bstr * bstr) * option (bstr * bstr)) : bool :=
-  match c with (i, idb, et, obs) =>
+Definition check_wrap (keys : keytab) (c : N * bstr * option (bstr * bstr)) : bool :=
+  match c with (i, idb, obs) =>
     match nth_error keys (N.to_nat i) with
     | Some k =>
-      match verifier_wrap (tab_enc et) (key_verifier k) (did_of_bytes idb), obs with
+      match verifier_wrap b58enc (key_verifier k) (did_of_bytes idb), obs with
       | Ret None, None => true
       | Ret (Some w), Some (odid, oenc) => beq (did_bytes (v_did w)) odid && beq (verifier_encode w) oenc
       | _, _ => false
@@ -176,3 +196,19 @@ Definition check_wrap (keys : keytab) (c : N * bstr * list (bstr * bstr) * optio
     end
   end.
 Definition check_wraps keys a : list N := bad_ids (check_wrap keys) a 0.
+
+(* ---- the base encodings against the Go libraries ----
+   (which, input, what the Go library returned: None = error)
+     0  multibase.Decode("z" ++ input), encoding Base58BTC   = b58dec input
+     1  multibase.Decode(input)  (modelled prefixes only)    = mb_decode input
+     2  multibase.Encode(Base58BTC, input) without the "z"   = b58enc input
+     3  multibase.Encode(Base64pad, input)                   = mb64enc input *)
+Definition check_base (c : N * bstr * option bstr) : bool :=
+  match c with (which, x, exp) =>
+    if which =? 0 then option_eqb beq (b58dec x) exp
+    else if which =? 1 then mb_modelled x && option_eqb beq (mb_decode x) exp
+    else if which =? 2 then option_eqb beq (Some (b58enc x)) exp
+    else if which =? 3 then option_eqb beq (Some (mb64enc x)) exp
+    else false
+  end.
+Definition check_bases a : list N := bad_ids check_base a 0.
